@@ -79,10 +79,62 @@ def check_one(chk, rng):
         rr.destroy()
 
 
+def e2e_one(chk, sseed):
+    """end-to-end: the request log never contains a must-not index; every published index variant that the published
+    Release lists has exactly the listed size (no variant of a wrong size is ever published)"""
+    import os
+    from core import vloop
+    from e2e import common, runner, scenario
+    rng = random.Random(sseed)
+    w = common.World(rng, 1)
+    try:
+        repo = w.repos[0]
+        url = repo["url"]
+        store = w.stores()[url]
+        plan, info = scenario.gen_plan(rng, rng.choice(["none", "transient", "transient"]), repo, w.cfgs[url], store)
+        # additionally: the first-choice variant of some groups answers without a length and with a wrong body
+        groups = scenario.required_objects(repo, w.cfgs[url], store)
+        for g in rng.sample(groups, min(len(groups), rng.randint(0, 2))):
+            u = sorted(g["urls"], key=lambda x: (not x.endswith(".xz"), not x.endswith(".gz"), not x.endswith(".bz2")))[0]
+            for a in [u] + scenario.byhash_aliases(store, u):
+                for k in range(rng.randint(1, 3)):
+                    plan.append([a, k, rng.choice(["short", "long"])])
+        res = w.run(plans={url: plan}, chooser=vloop.RandomChooser(rng.randrange(1 << 30)))
+        replay = {"scenario_seed": sseed, "lines": w.lines, "plan": plan[:8]}
+        m = runner.mirror_dir(w.sb, url)
+        for cn, cfg_cn in w.cfgs[url]["codenames"].items():
+            reqs = [u for u in res.net.log if f"/dists/{cn}/" in u and "/by-hash/" not in u]
+            for u in reqs:
+                name = u.split(f"/dists/{cn}/", 1)[1]
+                if name in fsckmod.RELEASE_NAMES:
+                    continue
+                base, ext = fsckmod.uncompressed(name)
+                e = fsckmod.classify(base, set(cfg_cn))
+                if fsckmod.must_not(cfg_cn, e):
+                    chk.violation("must-not-requested", replay, f"{u} requested although its component/architecture/kind is not configured")
+            ddir = os.path.join(m, "dists", cn)
+            relp = next((os.path.join(ddir, n) for n in ("InRelease", "Release") if os.path.exists(os.path.join(ddir, n))), None)
+            if relp and res.exit == 0:
+                fields, entries = fsckmod.parse_release(open(relp, encoding="utf-8").read())
+                for algo, h, size, name in entries:
+                    p = os.path.join(ddir, name)
+                    if size and size > 0 and name not in fsckmod.RELEASE_NAMES and os.path.isfile(p) and fsckmod.lex_safe(name):
+                        chk.count("published_variants_checked")
+                        if os.path.getsize(p) != size:
+                            chk.violation("published-variant-wrong-size", replay,
+                                          f"{cn}/{name} is published with {os.path.getsize(p)} bytes, the Release entry says {size}")
+        chk.evaluated(("e2e", tuple(sorted({f for _, _, f in plan}))), sample={"plan": plan[:4], "exit": res.exit})
+        chk.traces += 1
+    finally:
+        w.destroy()
+
+
 def run(chk, tier, rng):
     n = 120 if tier == "quick" else 3000
     for i in range(n):
         check_one(chk, random.Random(f"C10-{chk.seed}-{i}"))
+    for i in range(50 if tier == "quick" else 1200):
+        e2e_one(chk, f"C10e-{chk.seed}-{i}")
     chk.assumptions += ["no component or architecture name is a substring of another (property quantifier)",
                         "S8: entries in neither mustFetch nor mustNot are don't-care; files directly below a nested component are not standard",
                         "S12: python-debian's tokeniser agrees with the harness tokeniser on generated files"]
